@@ -455,6 +455,10 @@ func (c *Collection) Bind(invokeFunc any, initFunc any) error {
 		if initFunc != nil {
 			initF = newProvider(initFunc, -1, c.name+" initialization func")
 		}
+		if invokeF.fatal != nil || (initF != nil && initF.fatal != nil) {
+			// not functions at all: there is no chain to trace or to reproduce
+			return err
+		}
 
 		debugOutput := captureDoBindDebugging(c, invokeF, initF)
 		return &njectError{
